@@ -21,6 +21,17 @@ pub(crate) fn read_nint<R: BufRead + Seek>(raw: &mut Deserializer<R>) -> Result<
     }
 }
 
+/// Writes a CBOR negative integer for `value` in -2^64..=-1.
+/// `Serializer::write_negative_integer` takes an i64 and negates it, which overflows for i64::MIN
+/// and cannot represent anything below it without relying on wrap-around.
+pub(crate) fn write_nint<'se, W: Write>(
+    serializer: &'se mut Serializer<W>,
+    value: i128,
+) -> cbor_event::Result<&'se mut Serializer<W>> {
+    let arg = (-1 - value) as u64;
+    serializer.write_negative_integer_sz(value, cbor_event::Sz::canonical(arg))
+}
+
 pub(super) fn deserialize_and_check_index<R: BufRead + Seek>(
     raw: &mut Deserializer<R>,
     desired_index: Option<u64>,
